@@ -2,6 +2,6 @@
 SPECIFICATION Spec
 CONSTANTS
   Devs = {}
-  Families = {"A", "B"}
+  Families = {"A", "B", "C"}
   Gen = FALSE
 INVARIANT RuleIsSafe
